@@ -169,6 +169,10 @@ impl ElementMap for TransformerContext {
 
     fn get_element_size(&self, el: &SvgElement) -> Result<Option<Size>> {
         let target_el = el.get_target_element(self)?;
+        if target_el.has_unresolved_geometry() {
+            // registered but not yet resolved; see SvgElement::bbox_raw()
+            return Err(SvgdxError::MissingBoundingBox(target_el.to_string()));
+        }
         let el_size = target_el.size(self)?;
 
         Ok(el_size)
